@@ -58,7 +58,9 @@ Fixpoint jports (ps : list port) (ins : list (list id)) : list jval :=
   end.
 Definition jnode (T : table) (e : id * node) : jval :=
   JArr [JStr (fst e); JInt (Z.of_nat (n_ty (snd e))); JArr (jports (ports_of T (n_ty (snd e))) (n_in (snd e)));
-        jprec (n_par (snd e))].
+        jprec (n_par (snd e));
+        (* what a parameter READ (Instance.ParameterData) denotes: the current value *)
+        match n_par (snd e) with Some r => jopt (pr_val r) | None => JNull end].
 (* [ nodes; producers; metadata ] *)
 Definition jinst (T : table) (s : inst) : jval :=
   JArr [JArr (map (jnode T) (i_nodes s));
@@ -100,6 +102,14 @@ Fixpoint all_eqN (l : list N) : bool :=
   | _ => true
   end.
 
+(* further edits applied after the save to the live instance and to the reloaded one alike, then both observed
+   (structure, artifacts, saved tree, digest of the save); [None]: rendered identically to the live one *)
+Record contobs := mkcont {
+  c_ops : list op; c_oks_live : list bool; c_oks_re : list bool;
+  c_live : jval; c_arts_live : jval; c_file_live : jval;
+  c_re : option jval; c_arts_re : option jval; c_file_re : option jval;
+  c_dig_live : N; c_dig_re : N }.
+
 Inductive case :=
 (* the factory as the harness observes it *)
 | CTable (observed : table)
@@ -109,6 +119,7 @@ Inductive case :=
         (before arts_before file1 : jval) (save_digests : list N) (reload_ok : bool)
         (after arts_after file2 : option jval)      (* None: rendered identically to before / arts_before / file1 *)
         (digest2 digest_app : N)
+        (cont : option contobs)
 (* a shipped graph file: load -> save S1 -> load -> save S2 *)
 | CFile (file1 : jval) (file2 : option jval) (arts1 : jval) (arts2 : option jval) (digest1 digest2 : N).
 
@@ -130,8 +141,15 @@ Definition orelse (o : option jval) (d : jval) : jval := match o with Some x => 
 Definition corr_ok (c : case) : bool :=
   match c with
   | CTable obs => list_eqb ty_eqb obs the_table
-  | CHist modulo ops oks before _ file1 _ reload_ok after _ file2 _ _ =>
+  | CHist modulo ops oks before _ file1 _ reload_ok after _ file2 _ _ cont =>
       let '(s, moks) := run_from the_table empty ops in
+      match cont with
+      | None => true
+      | Some k =>   (* the model carries on from the state it reached (decode (encode s) = s is a theorem) *)
+          let '(s2, moks2) := run_from the_table s (c_ops k) in
+          list_eqb Bool.eqb moks2 (c_oks_live k) && jval_eqb (jinst the_table s2) (c_live k)
+          && jval_eqb (jschema (encode the_table s2)) (c_file_live k)
+      end &&
       list_eqb Bool.eqb moks oks
       && jval_eqb (jinst the_table s) before
       && jval_eqb (jschema (encode the_table s)) file1
@@ -148,7 +166,16 @@ Definition corr_ok (c : case) : bool :=
 Definition prop_ok (c : case) : bool :=
   match c with
   | CTable _ => true
-  | CHist _ _ _ before arts_before file1 digs reload_ok after arts_after file2 dig2 dig_app =>
+  | CHist _ _ _ before arts_before file1 digs reload_ok after arts_after file2 dig2 dig_app cont =>
+      match cont with
+      | None => true
+      | Some k =>   (* the reloaded graph carries on exactly as the one that was saved *)
+          list_eqb Bool.eqb (c_oks_live k) (c_oks_re k)
+          && jval_eqb (c_live k) (orelse (c_re k) (c_live k))
+          && jval_eqb (c_arts_live k) (orelse (c_arts_re k) (c_arts_live k))
+          && jval_eqb (c_file_live k) (orelse (c_file_re k) (c_file_live k))
+          && N.eqb (c_dig_live k) (c_dig_re k)
+      end &&
       reload_ok
       && jval_eqb before (orelse after before)                  (* same nodes, wiring incl. array order, parameter records, producers, metadata *)
       && jval_eqb arts_before (orelse arts_after arts_before)   (* same artifact content *)
